@@ -18,7 +18,7 @@ import (
 )
 
 // Universe of label names every template references and every branch is asked about.
-var Universe = []string{"a", "b", "c", "__name__"}
+var Universe = []string{"a", "b", "c", "d", "__name__"}
 
 func abstractName(l string) string {
 	if l == "__name__" {
@@ -149,7 +149,7 @@ func (pt *Pint) Analyse(q string) (an Analysis, err error) {
 		return an, fmt.Errorf("query %q cannot be embedded", q)
 	}
 	content := "- alert: A\n  expr: '" + q + "'\n  annotations:\n" +
-		"    s: '{{ $labels.a }} {{ $labels.b }} {{ $labels.c }} {{ $labels.__name__ }}'\n"
+		"    s: '{{ $labels.a }} {{ $labels.b }} {{ $labels.c }} {{ $labels.d }} {{ $labels.__name__ }}'\n"
 	file := pt.p.Parse(strings.NewReader(content))
 	if file.Error.Err != nil {
 		return an, fmt.Errorf("rule file rejected: %w", file.Error.Err)
